@@ -93,6 +93,11 @@ CHECKS["C17"] = ("fault_enumeration",
  "Well-formed multi-line JSON documents of 3 kinds x 7 sizes around the 16 KiB window x {LF, CRLF, CR} x 0..3 preceding valid documents are corrupted by ONE byte at every byte (small documents) or at every byte around each buffer boundary; each corrupted stream goes through 8 transports (regular file; pipe whole and in chunks of 1, 7, 512, 4096, 16384, 16385). The true offending byte comes from encoding/json run by the harness on the same bytes; the reported line must be its 1-based line, the excerpt a piece of that line covering it, the caret under it in terminal columns. Truncations under default/--stream/-s/--slurpfile. Query errors: 47 offending token kinds (incl. tokens glued to ones the lexer looks ahead for) x 15 contexts x 4 continuations as argument and -f file, checked for ParseError Offset/Token, line and caret.",
  "encoding/json's SyntaxError.Offset is the position oracle for JSON; go-runewidth is the column oracle. YAML positions come from the YAML library and are only checked for presence.",
  "DESIGN.md §4 C17")
+CHECKS["C18"] = ("model_checking",
+ "exhaustive enumeration of module trees, definition profiles and file-system layouts, each compiled with the real loader and compared, probe by probe, with a resolution model (textual inclusion with namespacing; first-match directory lookup)",
+ "Module trees main -> x -> y -> z (depth 3, diamonds, a module reached by include and by import, one alias used twice, auto-included init modules): every sequence of <= 2 (thorough <= 3) distinct main links from 8 x 10 link lists of x x 4 of y x definition profiles (same name at several arities, redefinition, forward references, unqualified/qualified/builtin-shadowing calls, $d and $d::d) x 4 init modules; 27 probes per tree are each compiled and run and must be defined with the model's value or fail with the model's error. File-system resolution: the 4 candidate files of a module (d1/n.jq, d1/n/base.jq, d2/n.jq, d2/n/base.jq; n = x and p/x; .json for data) x all 16 presence subsets x 4 -L configurations x 6 `search` entries in main (also as -f file elsewhere) x nested modules living in 2 directories with 7 `search` entries. modulemeta for 4 x 5 x 6 modules; the default search list (~/.jq file or directory, $ORIGIN/../lib/gojq, $ORIGIN/../lib) with a copy of the real binary.",
+ "The model reads include as textual insertion and import as isolation plus alias prefix; three deviations of the pinned tree from it are recorded as known findings and matched only when the model with that deviation switched on predicts the whole tree.",
+ "DESIGN.md §4 C18")
 NOT_YET = "check not built yet (work in progress in this session); see DESIGN.md for the planned exploration"
 
 def commits():
